@@ -22,7 +22,7 @@ LEVEL = "exploration"
 ENGINE = "sim"
 TECHNIQUE = "runtime monitor in a deterministic world: scripted page server + sequential reference (concatenation of pages, paging-state chain) over an enumerated space of page-size sequences x access patterns"
 LEVEL_TEXT = ("Exhaustive over page-size sequences in {0..3}^(1..4) on quick ({0..3}^(1..7) on thorough) x 17 access patterns x {load-balanced, pinned to one of two hosts with host=}, row factory "
-              "tuple/dict/named rotating (all three for every sequence on thorough): rows seen == concatenation of pages, paging-state chain "
+              "tuple/dict/named rotating (all three for every sequence up to length 6 on thorough): rows seen == concatenation of pages, paging-state chain "
               "exact, no request after the final page, list materialisation == iteration, observers agree with the page model. "
               "Exhaustive within those bounds for the sequential access patterns listed; schedules (thread interleavings) are sampled.")
 LEVEL_NOTE = ("Trusted base: sim/world.py, sim/node.py, spec/frames.py (independent encoder of the ROWS frames and parser of the QUERY frames). "
@@ -589,7 +589,7 @@ def run(ctx):
             continue
         for j, pat in enumerate(PATTERNS):
             for targeted in (False, True):          # load-balanced execution / execution pinned to one host with host=
-                if ctx.quick:
+                if ctx.quick or len(seq) >= 7:      # the longest sequences (3/4 of the thorough space) rotate the row factory as well
                     work.append((seq, pat, factories[(i + j + ctx.seed + targeted) % 3][0], targeted))
                 else:
                     for f in factories:
